@@ -2,13 +2,13 @@
 from vt import g3, runner
 
 META = {
-    "category": "proof",
+    "category": "other",
     "text": 'Call-protocol contract (G3): get_modified_ts and preprocess_ts call record_provenance exactly once iff recording is on, record_provenance appends exactly one row built from the command name and every recorded parameter and touches nothing else, nested calls pass record_provenance=False, and every run() parameter is copied into the record. Encodability of numpy parameter values was a defect (fixed: 9c8774f).',
     "design_ref": "DESIGN.md section 4, C33",
     "level_note": 'Trusted: G3 path enumeration; assumed: provenances.add_row appends and keeps earlier rows (A-TS-API); json.dumps (A-JSON).',
     "technique": 'contract-based verification: frame/protocol/data-flow contracts decided by symbolic path enumeration of the real AST (+ z3 where arithmetic is involved); bounded stand-in on the real code',
 }
-PLAN = {"level": "proof", "explanation": META["text"]}
+PLAN = {"level": "other", "explanation": META["text"]}
 
 
 def run(ctx):
